@@ -100,6 +100,9 @@ def histories():
                                    [(eax, Op('*', eax, C(0x10001)))]], []))
     H.append(('alu-mixed-symbolic', [[(eax, Op('&', eax, C(0xFF00)))], [(ebx, Op('>>', eax, C(8)))], [(ecx, Op('+', ecx, Op('-', ecx)))], [(edx, Op('|', edx, C(0)))],
                                      [(M(esi, 32), Op('+', ebx, ecx))]], [M(esi, 8), M(at(esi, 1), 8)]))
+    # a count (or a factor) that the state binds to a constant while the value stays symbolic
+    H.append(('shift-count-bound-to-zero', [[(ecx, C(0))], [(ebx, Op('<<', ebx, ecx))], [(edx, Op('>>>', edx, ecx))], [(edi, Op('a>>', eax, ecx))], [(eax, Op('&', eax, ecx))]], []))
+    H.append(('shift-count-bound-to-32', [[(ecx, C(32))], [(ebx, Op('<<<', ebx, ecx))], [(edx, Op('>>', edx, Op('&', ecx, C(0x1F))))], [(eax, Op('*', eax, Op('>>', ecx, C(5))))]], []))
     return H
 
 
